@@ -36,6 +36,7 @@ var (
 
 type dFaults struct {
 	ethErr  int // permille per RPC
+	ethNull int // permille per block lookup: the node answers null (unknown block)
 	stmtErr int // permille per DB request
 	connErr int
 }
@@ -56,6 +57,7 @@ type worldD struct {
 	// failNext forces the next matching request to fail (targeted fault placement)
 	failNextDB  func(req *pgsim.Request) bool
 	failNextEth func(method string) bool
+	nullNextEth func(method string) bool
 }
 
 var errInjectedRPC = errors.New("simeth: injected RPC error")
@@ -143,6 +145,17 @@ func (w *worldD) decide(rq *simkit.Req) any {
 		if w.faults.ethErr > 0 && c.Chance(w.faults.ethErr, "rpc.eth_error") {
 			w.r.Fault("rpc.eth_error")
 			return errInjectedRPC
+		}
+		if info == "eth_getBlockByNumber" || info == "eth_getBlockByHash" {
+			if w.nullNextEth != nil && w.nullNextEth(info) {
+				w.nullNextEth = nil
+				w.r.Fault("rpc.eth_unknown_block")
+				return simeth.ErrAnswerNull
+			}
+			if w.faults.ethNull > 0 && c.Chance(w.faults.ethNull, "rpc.eth_unknown_block") {
+				w.r.Fault("rpc.eth_unknown_block")
+				return simeth.ErrAnswerNull
+			}
 		}
 		return nil
 	}
